@@ -374,6 +374,31 @@ impl Listener {
         }
     }
 
+    /// like `accept`, but gives up as soon as `client_done` is set and nothing is pending (the client returned
+    /// without ever connecting): a failing client must not cost the full waiting time
+    pub fn accept_until(&self, wait: Duration, client_done: &std::sync::atomic::AtomicBool) -> Option<TcpStream> {
+        self.listener.set_nonblocking(true).ok()?;
+        let t0 = Instant::now();
+        loop {
+            let was_done = client_done.load(std::sync::atomic::Ordering::SeqCst);
+            match self.listener.accept() {
+                Ok((s, _)) => {
+                    let _ = s.set_nonblocking(false);
+                    let _ = s.set_nodelay(true);
+                    let _ = s.set_read_timeout(Some(Duration::from_millis(200)));
+                    return Some(s);
+                }
+                Err(e) if e.kind() == std::io::ErrorKind::WouldBlock => {
+                    if was_done || t0.elapsed() > wait {
+                        return None;
+                    }
+                    std::thread::sleep(Duration::from_micros(200));
+                }
+                Err(_) => return None,
+            }
+        }
+    }
+
     /// number of further connections already pending (non-blocking)
     pub fn pending(&self) -> usize {
         let _ = self.listener.set_nonblocking(true);
